@@ -435,9 +435,16 @@ func checkC08(r *core.Run) {
 				setB[c.Block()] = true
 			}
 			var bad []*ssa.BasicBlock
+			succ := successBlocks(r, fn)
 			if !sameBlockAfter {
-				succ := successBlocks(r, fn)
 				bad = forwardAvoid(remStore.Block(), setB, nil, func(b *ssa.BasicBlock) bool { return succ[b] })
+			}
+			// ... and that assignment itself lies on every success path from the point where the reward was split
+			// into the part to pay and the remainder (not only on the paths that pay out coins)
+			if ex, ok := remStore.Val.(*ssa.Extract); ok && bad == nil {
+				if tr, ok := ex.Tuple.(*ssa.Call); ok && tr.Block() != remStore.Block() {
+					bad = forwardAvoid(tr.Block(), map[*ssa.BasicBlock]bool{remStore.Block(): true}, nil, func(b *ssa.BasicBlock) bool { return succ[b] })
+				}
 			}
 			if bad == nil {
 				r.Discharge("T-claim", key, r.P.Pos(remStore.Pos()), "every success return after Pledge.Reward := remainder passes SetPledge")
